@@ -82,9 +82,9 @@ def replay(h, enc, Table, Missing):
         op, args = step["op"], step["args"]
         try:
             if op == "index":
+                same_claim = tuple(base.indexes) == tuple(args)
                 base.index(*args); cur = base
-                ks = list(zip(*(base[c] for c in base.indexes)))
-                stale = any(b < a for a, b in zip(ks, ks[1:]))      # index() on a table that already claims this index does nothing
+                stale = stale and same_claim      # index() on a table that already claims exactly this index does nothing (known finding); any other index() really sorts
             elif op in ("insert", "insertc"):
                 names = ("a", "b", "c")
                 dicts = [{names[i]: val(x) for i, x in enumerate(r) if x != M} for r in args]
@@ -123,7 +123,7 @@ def replay(h, enc, Table, Missing):
                     prows = rows_of(prev)
                     for nm, mk in (("scan-copy", lambda: Table(columns=prev.columns).insert(prows) if prows else Table(columns=prev.columns)),
                                    ("bisect-copy", lambda: (Table(columns=prev.columns).insert(prows) if prows else Table(columns=prev.columns)).index(col))):
-                        if nm == "bisect-copy" and col == "c": continue
+                        if nm == "bisect-copy" and col == "c" and any(r[2] is None for r in prows if len(r) > 2): continue   # None cannot be ordered
                         t2 = mk()
                         want = [r for r in rows_of(t2) if any(same_rows([r], [e]) for e in exp)]
                         g2 = rows_of(t2.where(comparison=o, **{col: a}))
